@@ -171,6 +171,12 @@ fn structured(d: Dec, valid: &[u8], rng: &mut impl RngCore) -> Option<(String, V
                     let e = mutate::edit_len(&mut v, 8 * f, true, rng.next_u32() as usize);
                     Some((format!("header[{f}]{e}"), v))
                 }
+                2 if ck_len >= 8 + 2 * 97 => {
+                    // several raw commit-key points moved out of the subgroup together
+                    let count = (ck_len - 8) / 97;
+                    let c = mutate::cancelling_raw(rng, &mut v, ck_off + 8, count)?;
+                    Some((format!("commit-key-points:{c}"), v))
+                }
                 2 | 3 | 4 => {
                     // raw commit-key point
                     let count = (ck_len - 8) / 97;
@@ -193,6 +199,10 @@ fn structured(d: Dec, valid: &[u8], rng: &mut impl RngCore) -> Option<(String, V
                     } else {
                         None
                     }
+                }
+                8 => {
+                    let c = mutate::cancelling_compressed(rng, &mut v, vk_off + 8, 15)?;
+                    Some((format!("verifier-key-commitments:{c}"), v))
                 }
                 _ => {
                     let i = rng.next_u32() as usize % 15;
@@ -217,7 +227,11 @@ fn structured(d: Dec, valid: &[u8], rng: &mut impl RngCore) -> Option<(String, V
                     let e = mutate::edit_len(&mut v, vk_off, false, rng.next_u32() as usize);
                     Some((format!("vk.n{e}"), v))
                 }
-                3 | 4 => {
+                3 => {
+                    let c = mutate::cancelling_compressed(rng, &mut v, vk_off + 8, 15)?;
+                    Some((format!("commitments:{c}"), v))
+                }
+                4 => {
                     let i = rng.next_u32() as usize % 15;
                     let off = vk_off + 8 + 48 * i;
                     let (c, b) = mutate::hostile_g1_compressed(rng, &valid[off..off + 48]);
@@ -243,6 +257,10 @@ fn structured(d: Dec, valid: &[u8], rng: &mut impl RngCore) -> Option<(String, V
                 let (c, inner) = structured(Dec::OpeningKey, &valid[..240], rng)?;
                 v[..240].copy_from_slice(&inner[..240.min(inner.len())]);
                 Some((format!("opening-key:{c}"), v))
+            } else if rng.next_u32() % 4 == 0 && v.len() >= 240 + 96 {
+                let count = (v.len() - 240) / 48;
+                let c = mutate::cancelling_compressed(rng, &mut v, 240, count)?;
+                Some((format!("powers:{c}"), v))
             } else {
                 let count = (v.len() - 240) / 48;
                 let i = rng.next_u32() as usize % count;
@@ -259,6 +277,10 @@ fn structured(d: Dec, valid: &[u8], rng: &mut impl RngCore) -> Option<(String, V
                     let e = mutate::edit_len(&mut v, 0, false, rng.next_u32() as usize);
                     Some((format!("count{e}"), v))
                 }
+                1 if count >= 2 => {
+                    let c = mutate::cancelling_raw(rng, &mut v, 8, count)?;
+                    Some((format!("points:{c}"), v))
+                }
                 _ => {
                     let i = rng.next_u32() as usize % count;
                     let off = 8 + 97 * i;
@@ -270,6 +292,10 @@ fn structured(d: Dec, valid: &[u8], rng: &mut impl RngCore) -> Option<(String, V
         }
         Dec::CommitKeyVar => {
             let count = v.len() / 48;
+            if count >= 2 && rng.next_u32() % 4 == 0 {
+                let c = mutate::cancelling_compressed(rng, &mut v, 0, count)?;
+                return Some((format!("points:{c}"), v));
+            }
             let i = rng.next_u32() as usize % count;
             let (c, b) = mutate::hostile_g1_compressed(rng, &valid[48 * i..48 * i + 48]);
             v[48 * i..48 * i + 48].copy_from_slice(&b);
